@@ -75,6 +75,20 @@ func (g *qGen) directive() string {
 	return fmt.Sprintf(" @%s(if: %v)", name, g.r.Intn(2) == 0)
 }
 
+// directiveAlways is directive() without the 12% gate
+func (g *qGen) directiveAlways() string {
+	if !g.k.Directives {
+		return ""
+	}
+	g.feats["directive"]++
+	name := []string{"skip", "include"}[g.r.Intn(2)]
+	if g.k.Variables && g.pct(50) {
+		v := g.newVar("Boolean!", g.r.Intn(2) == 0)
+		return fmt.Sprintf(" @%s(if: $%s)", name, v)
+	}
+	return fmt.Sprintf(" @%s(if: %v)", name, g.r.Intn(2) == 0)
+}
+
 func (g *qGen) newVar(typ string, val interface{}) string {
 	g.feats["variable"]++
 	// reuse an existing variable of the same type sometimes
@@ -226,8 +240,27 @@ func (g *qGen) selections(t *TypeSpec, depth int, top bool) []string {
 			dir := ""
 			if g.k.FragDirs {
 				dir = g.directive()
+				if dir == "" && g.pct(35) {
+					dir = g.directiveAlways()
+				}
+			}
+			if g.pct(30) {
+				// a fragment inside the fragment: what leaves for another service is re-wrapped in both
+				g.feats["nested-inline"]++
+				if g.k.FragDirs && dir == "" {
+					dir = g.directiveAlways()
+				}
+				if g.k.Untyped && g.pct(30) {
+					one = fmt.Sprintf("... { %s }", one)
+				} else {
+					one = fmt.Sprintf("... on %s { %s }", t.Name, one)
+				}
 			}
 			one = fmt.Sprintf("... on %s%s { %s%s }", t.Name, dir, one, more)
+			if dir != "" && g.pct(65) {
+				// the join id selected plainly next to the conditional fragment
+				out = append(out, "id")
+			}
 		case p < 17 && g.k.Untyped:
 			g.feats["untyped-inline"]++
 			one = fmt.Sprintf("... { %s }", one)
